@@ -152,8 +152,8 @@ SCHEMES.update({
                                r11='bn', msg='bytes'), sig_oracle(),
                 opts=lambda rng: dict(k=rng.randint(1, 3))),
     'mklhs': Spec('C05', 5, dict(pk0='g2', pk1='g2', sig='g1', m='bn', mu0='bn', mu1='bn'),
-                  sig_oracle(modn=('m', 'mu0', 'mu1'), vers=('ver', 'onv')), pc=True,
-                  opts=lambda rng: dict(ord=rng.below(1 << 16))),
+                  sig_oracle(modn=('m', 'mu0', 'mu1', 'mu2'), vers=('ver', 'onv')), pc=True,
+                  opts=lambda rng: dict(ord=rng.below(1 << 16), k=rng.choice([0, 1, 1, 2, 2]), n=rng.choice([0, 1, 1, 2]))),
 })
 
 
